@@ -212,11 +212,11 @@ package martian
 //@   ensures result0 != nil ==> result0.Body != nil && result0.Header != nil
 
 //@ func (*Proxy).handle
-//@   serves C01 C02 C03 C05 C07
+//@   serves C01 C02 C03 C05 C07 C18
 //@   noframe
 //@   requires proxyReady(p) && ctxIdle(ctx) && sessionIdle(ctx.session) && conn != nil && brw != nil && brw.Writer != nil && brw.Reader != nil
 //@   requires !ctx.session.hijacked && secureInv(ctx.session)
-//@   modifies nReq, nRes, reqSeq, resSeq, lastReqErr, lastResErr, nUp, nWrite, bufio.Writer.gFlushed, bufio.Writer.gFailed, wroteErr, gotReq, up0, res0, wr0, didLink, io.Closer.bodyClosed, tunnelUp, tunnelConn, dialedConn, net.Conn.connClosed, eofSignalN, nJoin, nCopy, closingSeen, nConnClose, nWarn, lastWarnHeader, ctxs[*], ctxmu.wheld, ctxmu.rheld
+//@   modifies nReq, nRes, reqSeq, resSeq, lastReqErr, lastResErr, nUp, nWrite, bufio.Writer.gFlushed, bufio.Writer.gFailed, wroteErr, gotReq, up0, res0, wr0, didLink, anyShapeMatch, io.Closer.bodyClosed, tunnelUp, tunnelConn, dialedConn, net.Conn.connClosed, eofSignalN, nJoin, nCopy, closingSeen, nConnClose, nWarn, lastWarnHeader, ctxs[*], ctxmu.wheld, ctxmu.rheld
 //@   modifies http.Request.*, url.URL.*, http.Response.*, Session.hijacked, Session.secure, Session.conn, Session.brw, Context.skipRoundTrip, Context.skipLogging, Context.apiRequest
 //@   modifies sync.RWMutex.wheld, sync.RWMutex.rheld, dialN, lastDialed, lastDialErr, tls.Conn.gclosed, trafficshape.Conn.Context
 //@   ensures[every-started-copy-direction-is-joined; C04] nJoin - old(nJoin) == nCopy - old(nCopy)
@@ -246,6 +246,10 @@ package martian
 //@   at call 0 of Write before assert[response-modifier-ran-before-the-write] nRes == res0 + 1 && nWrite == wr0
 //@   at call 0 of Write before assert[close-decision-marks-the-response] (req.Close || closingSeen) ==> res.Close
 //@   at entry 0 before set didLink = false
+//@   at entry 0 before set anyShapeMatch = false
+//@   at call 0 of MatchString after set anyShapeMatch = anyShapeMatch || result0
+//@   loop map 0 invariant !anyShapeMatch && ptsconn != nil && ptsconn == as(conn, *trafficshape.Conn) && ptsconn.Context != nil && !ptsconn.Context.Shaping
+//@   at call 0 of Write before assert[a-response-whose-url-matches-no-shape-is-written-unshaped; C18] typeis(conn, *trafficshape.Conn) && !anyShapeMatch ==> as(conn, *trafficshape.Conn).Context != nil && !as(conn, *trafficshape.Conn).Context.Shaping
 //@   at call 0 of readRequest after set result0.gBody0 = result0.Body
 //@   at return all before assert[request-body-drained-and-closed-when-the-exchange-ends; C01] req != nil ==> req.gBody0.bodyClosed
 //@   at call 0 of link after set didLink = true
@@ -254,6 +258,8 @@ package martian
 //@ ghost var res0 int
 //@ ghost var wr0 int
 //@ ghost var didLink bool
+// anyShapeMatch: the URL of the current exchange matched one of the connection's shape expressions
+//@ ghost var anyShapeMatch bool
 // the body of the request as it was read: closing it discards what the client still sends of it, so that the next
 // request is read from a clean connection
 //@ ghost field http.Request.gBody0 io.Closer
@@ -295,7 +301,7 @@ package martian
 //@   requires proxyReady(p) && ctxIdle(ctx) && sessionIdle(session) && session == ctx.session && conn != nil && brw != nil && brw.Writer != nil && brw.Reader != nil
 //@   requires req != nil && req.URL != nil && req.Header != nil && has(ctxs, req) && ctxs[req] == ctx && allocated(req)
 //@   requires !session.hijacked && secureInv(session)
-//@   modifies nReq, nRes, reqSeq, resSeq, lastReqErr, lastResErr, nUp, nWrite, bufio.Writer.gFlushed, bufio.Writer.gFailed, wroteErr, gotReq, up0, res0, wr0, didLink, io.Closer.bodyClosed, tunnelUp, tunnelConn, dialedConn, net.Conn.connClosed, eofSignalN, nJoin, nCopy, closingSeen, nConnClose, nWarn, lastWarnHeader, ctxs[*], ctxmu.wheld, ctxmu.rheld
+//@   modifies nReq, nRes, reqSeq, resSeq, lastReqErr, lastResErr, nUp, nWrite, bufio.Writer.gFlushed, bufio.Writer.gFailed, wroteErr, gotReq, up0, res0, wr0, didLink, anyShapeMatch, io.Closer.bodyClosed, tunnelUp, tunnelConn, dialedConn, net.Conn.connClosed, eofSignalN, nJoin, nCopy, closingSeen, nConnClose, nWarn, lastWarnHeader, ctxs[*], ctxmu.wheld, ctxmu.rheld
 //@   modifies http.Request.*, url.URL.*, http.Response.*, Session.hijacked, Session.secure, Session.conn, Session.brw, Context.skipRoundTrip, Context.skipLogging, Context.apiRequest
 //@   modifies sync.RWMutex.wheld, sync.RWMutex.rheld, dialN, lastDialed, lastDialErr, tls.Conn.gclosed, trafficshape.Conn.Context
 //@   ensures[locks-released] tableIdle() && sessionIdle(session) && ctxIdle(ctx)
@@ -341,7 +347,7 @@ package martian
 //@   noframe
 //@   modifies nArm, nServe
 //@   requires proxyReady(p) && conn != nil && !p.connsMu.held
-//@   modifies nReq, nRes, reqSeq, resSeq, lastReqErr, lastResErr, nUp, nWrite, bufio.Writer.gFlushed, bufio.Writer.gFailed, wroteErr, gotReq, up0, res0, wr0, didLink, io.Closer.bodyClosed, tunnelUp, tunnelConn, dialedConn, net.Conn.connClosed, eofSignalN, nJoin, nCopy, closingSeen, nConnClose, nWarn, lastWarnHeader, ctxs[*], ctxmu.wheld, ctxmu.rheld
+//@   modifies nReq, nRes, reqSeq, resSeq, lastReqErr, lastResErr, nUp, nWrite, bufio.Writer.gFlushed, bufio.Writer.gFailed, wroteErr, gotReq, up0, res0, wr0, didLink, anyShapeMatch, io.Closer.bodyClosed, tunnelUp, tunnelConn, dialedConn, net.Conn.connClosed, eofSignalN, nJoin, nCopy, closingSeen, nConnClose, nWarn, lastWarnHeader, ctxs[*], ctxmu.wheld, ctxmu.rheld
 //@   modifies http.Request.*, url.URL.*, http.Response.*, Session.hijacked, Session.secure, Session.conn, Session.brw, Context.skipRoundTrip, Context.skipLogging, Context.apiRequest
 //@   modifies sync.RWMutex.wheld, sync.RWMutex.rheld, dialN, lastDialed, lastDialErr, tls.Conn.gclosed, trafficshape.Conn.Context, p.connsMu.held, net.Conn.connClosed
 //@   ensures[connection-closed-on-every-exit] conn.connClosed
